@@ -321,6 +321,22 @@ def make_setup(case, rng):
             return (huber(t1, 1.0).mean() + huber(t2, 1.0).mean(),
                     (np.minimum(q1, q2).mean(), np.maximum(t1, t2)))
 
+        def through_update(i):
+            """The critic loss as reported by the routine MR.Q updates critic and
+            policy with (on copies, SGD): same arguments, same documented value."""
+            import optax
+            from rl_blox.algorithm.mrq import update_critic_and_policy
+            q_c, pol_c = nnx.clone(st.q), nnx.clone(st.policy_with_encoder.policy)
+            qo = nnx.Optimizer(q_c, optax.sgd(1e-3), wrt=nnx.Param)
+            po = nnx.Optimizer(pol_c, optax.sgd(1e-3), wrt=nnx.Param)
+            b = SB(j(i["obs"]), j(i["act"]), j(i["rew"]), j(i["nobs"]),
+                   jnp.asarray(i["term"]), jnp.zeros_like(jnp.asarray(i["term"])))
+            out = update_critic_and_policy(q_c, q_t, qo, pol_c, po, enc, enc_t, g,
+                                           1e-5, j(i["nact"]), b, rs, trs)
+            return np.asarray([float(out[0])], np.float64)
+
+        S.through_update = through_update
+        S.through_update_n = 1
         S.targets = {"q_target": q_t, "encoder_target": enc_t}
         S.online = st.q
         S.call_mod = call
@@ -404,6 +420,22 @@ def make_setup(case, rng):
                 mask = mask * (1 - i["term"][:, t])
             return wd * Ld + wr * Lr + wdn * Ldn, (Ld, Lr, Ldn)
 
+        def through_update(i):
+            """The same loss as reported by the update routine MR.Q trains the
+            encoder with (one mini-batch, SGD on a copy of the encoder): the
+            value it differentiates is the documented weighted sum."""
+            import optax
+            from rl_blox.blox.embedding.model_based_encoder import (
+                update_model_based_encoder)
+            enc_c = nnx.clone(enc)
+            opt = nnx.Optimizer(enc_c, optax.sgd(1e-3), wrt=nnx.Param)
+            b = SB(j(i["obs"]), j(i["act"]), j(i["rew"]), j(i["nobs"]),
+                   jnp.asarray(i["term"]), jnp.zeros_like(jnp.asarray(i["term"])))
+            out = update_model_based_encoder(
+                enc_c, enc_t, opt, bins, h, wd, wr, wdn, 1, N, norm, b, env_term)
+            return np.asarray(out, np.float64)
+
+        S.through_update = through_update
         S.row_keys = ["obs", "act", "rew", "nobs", "term"]
         S.successor_keys = []
         S.targets = {"encoder_target": enc_t}
@@ -477,6 +509,21 @@ def run_case(case):
                       "reference", {"got": [f64(a) for a in aux],
                                     "want": [f64(a) for a in raux]})
         return res
+    if getattr(S, "through_update", None) is not None:
+        ok, rep = guarded(res, f"C03/raises/update_routine/{loss}",
+                          S.through_update, S.inp)
+        if not ok:
+            return res
+        n_rep = getattr(S, "through_update_n", 4)
+        want = [rv] + [float(x) for x in list(raux)[:n_rep - 1]]
+        if not np.allclose(rep[:n_rep], want, rtol=2e-4, atol=1e-6):
+            res.violation(f"C03/{loss}/update_routine_loss",
+                          "the update routine optimises / reports "
+                          f"{rep[:n_rep].tolist()}, the documented loss "
+                          f"([total, dynamics, reward, done] for the encoder) "
+                          f"is {want}")
+            return res
+        res.see("update_routine_losses_checked")
     # ---- permutation invariance
     perm = rng.permutation(N)
     if loss == "sac":
